@@ -61,6 +61,11 @@ type echoEntity struct {
 	Pad string
 }
 
+// c13Panicky is an entity whose decoding panics.
+type c13Panicky struct{ id int }
+
+func (p *c13Panicky) UnmarshalJSON([]byte) error { panic(fmt.Sprintf("boom-%d", p.id)) }
+
 func genC13(x *Ctx) *c13Scen {
 	tp := x.Tape
 	sc := &c13Scen{}
@@ -237,12 +242,21 @@ func runC13(x *Ctx) {
 	ws.Route(ws.POST("/echopanic").To(func(req *restful.Request, resp *restful.Response) {
 		t := sim.Cur()
 		r := byID[ReqID(req.Request)]
+		t.Count("fault-panic")
+		if r.ID%2 == 1 {
+			// the panic comes from inside the entity reader: user code (an UnmarshalJSON method) run by
+			// ReadEntity while the pooled decompressor is in use
+			var bad c13Panicky
+			bad.id = r.ID
+			req.ReadEntity(&bad)
+			r.readErr = "ReadEntity returned although UnmarshalJSON panicked"
+			return
+		}
 		var ent echoEntity
 		if err := req.ReadEntity(&ent); err != nil {
 			r.readErr = err.Error()
 		}
 		t.Y(sim.SiteHandler)
-		t.Count("fault-panic")
 		panic(fmt.Sprintf("boom-%d", r.ID))
 	}))
 	ws.Route(ws.POST("/echo").To(func(req *restful.Request, resp *restful.Response) {
